@@ -73,9 +73,11 @@ def matches_known(prop_id, v, known):
     return None
 
 
-def write_replay(prop_id, v, seed, theorem=None):
+def write_replay(prop_id, v, seed, theorem=None, extra=None):
     os.makedirs(C.REPLAYS, exist_ok=True)
-    path = os.path.join(C.REPLAYS, "%s-%d-%d.json" % (prop_id, int(time.time()), os.getpid()))
+    # further violations of the same run get their own files (`-more<k>`): they must never
+    # overwrite the replay named on the VIOLATION line
+    path = os.path.join(C.REPLAYS, "%s-%d-%d%s.json" % (prop_id, int(time.time()), os.getpid(), ("-more%d" % extra) if extra else ""))
     j = v.to_json()
     j.update({"property": prop_id, "seed": seed, "theorem": theorem,
               "how": "./check %s --replay %s" % (prop_id, path)})
@@ -168,6 +170,50 @@ def shrink_bytes_op(prop, harness_bin, v):
         return v
     impl, model, _ = C.run_both(harness_bin, [new_op], "shrink", shards=1)
     return Violation(v.kind, new_op, impl[0], model[0], v.detail + " (shrunk from %d bytes)" % len(C.unhex(arg)), key=v.key)
+
+
+def with_history(prop, harness_bin, v, ops):
+    """A failure that does not reproduce when its operation is evaluated alone depends on what the
+    same process evaluated before it (state kept between calls: a cache, a reused buffer). The
+    replay then holds the shortest run of preceding operations (1, 2, 4, ... up to 256) after which
+    it reproduces, so that `--replay` shows it."""
+    if v.kind not in ("projection", "relation") or not isinstance(v.op, str) or not ops:
+        return v
+
+    def fails(ctx):
+        impl, model, _ = C.run_both(harness_bin, ctx, "hist", shards=1)
+        if v.kind == "projection":
+            pi, pm = prop.project(ctx[-1], impl[-1]), prop.project(ctx[-1], model[-1])
+            return (pi is not None and pm is not None and pi != pm), impl, model
+        try:
+            bad = [x for x in prop.relation(ctx, impl) if x.op == ctx[-1]]
+        except Exception:
+            return None, impl, model
+        return bool(bad), impl, model
+
+    alone, _, _ = fails([v.op])
+    if alone is None or alone:
+        return v
+    idx = getattr(v, "idx", None)
+    if idx is None or idx >= len(ops) or ops[idx] != v.op:
+        cands = [i for i, o in enumerate(ops) if o == v.op]
+        if not cands:
+            return v
+    else:
+        cands = [idx]
+    for idx in cands[:8]:
+        k = 1
+        while k <= 256:
+            ctx = ops[max(0, idx - k):idx + 1]
+            bad, impl, model = fails(ctx)
+            if bad:
+                return Violation(v.kind, ctx, impl, model,
+                                 "HISTORY-DEPENDENT: the last of these %d operations gives a different result when evaluated alone "
+                                 "(state carried between calls); %s" % (len(ctx), v.detail[:600]), key=v.key)
+            if idx - k <= 0:
+                break
+            k *= 2
+    return v
 
 
 def run_check(prop, tier, seed, replay=None):
@@ -276,8 +322,10 @@ def run_check(prop, tier, seed, replay=None):
                 pi = prop.project(op, il)
                 pm = prop.project(op, ml)
                 if pi is not None and pm is not None and pi != pm:
-                    violations.append(Violation("projection", op, il, ml,
-                                                "implementation and model differ on the %s projection: impl=%r model=%r" % (pid, pi, pm)))
+                    vv = Violation("projection", op, il, ml,
+                                   "implementation and model differ on the %s projection: impl=%r model=%r" % (pid, pi, pm))
+                    vv.idx = idx
+                    violations.append(vv)
                 elif il != ml and len(drift) < 20:
                     drift.append({"op": op[:300], "impl": il[:300], "model": ml[:300]})
             if len(samples) < 6 and idx % max(1, len(ops) // 6) == 0:
@@ -383,13 +431,17 @@ def run_check(prop, tier, seed, replay=None):
         v = unexplained[0]
         if hbin is not None and os.path.exists(C.DRIVER_BIN):
             try:
+                v = with_history(prop, hbin, v, ops if not replay else [])
+            except Exception as e:
+                notes.append("history search failed: %r" % e)
+            try:
                 v = shrink_bytes_op(prop, hbin, v)
             except Exception as e:  # shrinking is best effort
                 notes.append("shrink failed: %r" % e)
         path = write_replay(pid, v, seed, theorem=(prop.required[0] if prop.required else None))
         out_lines.append("VIOLATION property=%s replay=%s" % (pid, path))
-        for u in unexplained[1:5]:
-            write_replay(pid, u, seed)
+        for n_, u in enumerate(unexplained[1:5]):
+            write_replay(pid, u, seed, extra=n_ + 1)
         exit_code = 1
     elif not proof_ok or proof_problem:
         v = Violation("proof" if hbin is not None else "build", [], None, None, proof_problem or "proof obligations not discharged")
